@@ -3,7 +3,8 @@
 # usage: vf/selftest_fixes.sh [tier]
 TIER=${1:-quick}
 cd /repo && git diff --quiet || { echo "/repo not clean"; exit 3; }
-python3 - <<'P' > /tmp/.fixmap
+MAP=$(mktemp /var/tmp/verif-fixmap.XXXXXX)
+python3 - <<'P' > $MAP
 import json
 seen=set()
 for f in json.load(open('/verif/known_findings.json'))['findings']:
@@ -16,6 +17,6 @@ while read c p; do
   out=$(cd /verif && ./check $p --tier $TIER --no-evidence 2>&1); rc=$?
   git -C /repo revert --abort 2>/dev/null; git -C /repo reset -q --hard HEAD
   if [ $rc -eq 1 ] && echo "$out" | grep -q "^VIOLATION property=$p"; then echo "$c $p: RED as expected ($(echo "$out" | grep -c '^VIOLATION') violations)"; else echo "$c $p: NOT detected (exit $rc)"; fail=1; fi
-done < /tmp/.fixmap
-rm -f /tmp/.fixmap
+done < $MAP
+rm -f $MAP
 exit $fail
